@@ -58,7 +58,7 @@ CLAIMS = {
          "a physical one without the relocation offset; macro re-attribution only under the listing option and by position; half-open address lookups; no context field is overwritten before and read after a nested activation of the code generator without being restored (re-entrancy analysis); listing rows are cut at address gaps, read from the entry's own segment and written to distinct files; the row without bytes and the rows with bytes are decided on the same collection (every source line gets a row); no collection there is keyed by a target address alone; the source map is append-only as long as entries are addressed by position; distinct source paths inside the project get distinct listing files. Row layout on concrete programs is not decided.", "§4 C11"),
  "C12": ("formatter coverage and trivia-carrier rules on typed HIR + dominance on MIR",
          "Every text-carrying field of every AST variant is emitted; a Located emitted through `.data` is the token's leading element or tabled (so its comments cannot be lost); "
-         "both comment kinds become comment chunks and only blank lines are suppressed; `mos format` writes only after the whole project parsed; a chunk-dropping decision never depends on the text of the line; no Located value of an argument list is written through its data alone and no trivia list is copied selectively by item kind; a joined line is replaced by a part of itself only where the rest is blank; files opened for writing are truncated. Token-sequence and byte "
+         "both comment kinds become comment chunks and only blank lines are suppressed; `mos format` writes only after the whole project parsed; a chunk-dropping decision never depends on the text of the line; no Located value of an argument list is written through its data alone and no trivia list is copied selectively by item kind; a joined line is replaced by a part of itself only where the rest is blank; files opened for writing are truncated; a line break is dropped only on conditions over the line being built. Token-sequence and byte "
          "equality after formatting are not decided.", "§4 C12"),
  "C14": ("field-effect/dominance on MIR, label propagation CLIENTPOS/BYTELEN, hash-order classification, capability table",
          "Analysis results are reset before any early return and, on every path from where a handler reads the client's text, the text is stored, the project re-analysed and diagnostics republished (must-call with wrapper summaries); diagnostics of files that left the project are withdrawn; request handlers do not mutate the shared analysis; "
@@ -72,7 +72,7 @@ CLAIMS = {
          "Same completeness clause as C15 plus single-resolver agreement, per-segment usage spans, a per-pass reset of the usage database and a fixed, narrowest-first order among the definitions at a position; references and highlights select the same symbol definitions and answer each place once; the branch of an .if that is not taken is analysed in a scope of its own; a column, which counts characters, is never taken for a number of bytes in the code map, the analysis database and the source map; whether a usage is recorded does not depend on generator state. Which occurrence binds where on concrete programs is not decided.", "§4 C15/C16"),
  "C17": ("label propagation BYTELEN → LSP positions; dominance and shape rules on HIR",
          "No UTF-8 byte length/offset becomes an LSP character in the formatting answer; formatting only without diagnostics; the language server and the CLI share one formatter "
-         "and the server uses default options; the edit loop advances its position tracker over deleted and unchanged chunks only, in merged edits too; no character-counting column of the code map reaches an edit position; the diff is taken against the stored buffer itself. The diff-to-edit result on concrete buffers is "
+         "and the server uses default options; the edit loop advances its position tracker over deleted and unchanged chunks only, in merged edits too; no character-counting column of the code map reaches an edit position; the diff is taken against the stored buffer itself; the handlers answer the list that was computed, uncut. The diff-to-edit result on concrete buffers is "
          "not decided.", "§4 C17"),
  "C18": ("field-effect analysis on MIR + table agreement + shape rules on HIR",
          "Pending assertions are never mutated during a run; CPU flag masks and register keys agree with the 6502 and the guide; ram16 byte order; failure iff zero/unevaluable, "
